@@ -390,9 +390,7 @@ def evaluate_payload_template(input, context, template):
             start     = args[0]
             end       = args[1]
             increment = args[2]
-            if not (isinstance(start, int) and
-                    isinstance(end, int) and
-                    isinstance(increment, int)):
+            if not (is_int(start) and is_int(end) and is_int(increment)):
                 raise IntrinsicFailure(
                     "States.ArrayRange failed, all arguments must be integers."
                 )
@@ -401,15 +399,20 @@ def evaluate_payload_template(input, context, template):
                     "States.ArrayRange failed, args[2] cannot be zero."
                 )
 
-            # Create range using list comprehension. Note end + 1 is used as
-            # ASL spec specifies inclusive range but Python range is exclusive
-            array = [i for i in range(start, end + 1, increment)]
+            # Note end + 1 (end - 1 when counting down) is used as ASL spec
+            # specifies inclusive range but Python range is exclusive.
+            # The length is checked before the list is created.
+            items = range(start, end + (1 if increment > 0 else -1), increment)
 
-            if len(array) > 1000:
+            try:
+                too_many = len(items) > 1000
+            except OverflowError:  # more items than len() can report
+                too_many = True
+            if too_many:
                 raise IntrinsicFailure(
                     "States.ArrayRange failed with > 1000 items in range."
                 )
-            return array
+            return list(items)
 
         def asl_intrinsic_ArrayGetItem(args):
             if len(args) != 2:
